@@ -5,5 +5,6 @@ patch=$1; prop=$2; tier=${3:-quick}
 cd /repo && git apply "$patch" || { echo "PATCH DOES NOT APPLY"; exit 9; }
 cd /verif && VERIF_NO_EVIDENCE=1 ./check "$prop" --tier "$tier" 2>&1 | grep -v "WARNING conda" | tail -${4:-8}
 rc=${PIPESTATUS[0]}
-git -C /repo checkout -- . 
+git -C /repo checkout -- .
+/venv/bin/python /verif/tools/extract.py /repo /verif/coq/Gen >/dev/null 2>&1
 echo "check exit=$rc; repo clean: $(git -C /repo status --short | wc -l)"
